@@ -520,13 +520,101 @@ func mFarAction(f vFARSpec) uint64 {
 	return farDrop
 }
 
+// mGhost is the previous version of a PDR whose match key an Update PDR changed.
+type mGhost struct {
+	UP  uint64
+	P   mPDR
+	Flt mFilter
+}
+
+// mEntryIs: is the installed entry exactly one of the entries the (PDR, filter) pair denotes?
+func mEntryIs(e *vBessPDR, up uint64, p *mPDR, flt mFilter) bool {
+	if e.Fseid != up || e.PdrID != uint64(p.Spec.ID) {
+		return false
+	}
+	iface := uint64(core)
+	if p.Uplink {
+		iface = access
+	}
+	if e.Values[0] != iface || e.Masks[0] != 0xFF {
+		return false
+	}
+	if p.Uplink && p.Spec.FTEID {
+		if e.Values[1] != uint64(p.TunIP) || e.Masks[1] != 0xFFFFFFFF || e.Values[2] != uint64(p.TEID) || e.Masks[2] != 0xFFFFFFFF {
+			return false
+		}
+	} else if e.Masks[1] != 0 || e.Masks[2] != 0 {
+		return false
+	}
+	if e.Masks[3] != uint64(flt.SrcMask) || e.Values[3]&e.Masks[3] != uint64(flt.SrcIP&flt.SrcMask) {
+		return false
+	}
+	if e.Masks[4] != uint64(flt.DstMask) || e.Values[4]&e.Masks[4] != uint64(flt.DstIP&flt.DstMask) {
+		return false
+	}
+	port := func(v, m uint64, lo, hi uint16) bool {
+		if lo == 0 && hi == 65535 {
+			return m == 0
+		}
+		return m == 0xFFFF && v >= uint64(lo) && v <= uint64(hi)
+	}
+	if !port(e.Values[5], e.Masks[5], flt.SrcLo, flt.SrcHi) || !port(e.Values[6], e.Masks[6], flt.DstLo, flt.DstHi) {
+		return false
+	}
+	if flt.ProtoAny {
+		return e.Masks[7] == 0
+	}
+	return e.Masks[7] == 0xFF && e.Values[7] == uint64(flt.Proto)
+}
+
+// mStripGhosts removes from the snapshot the entries that are the previous version of an updated PDR
+// (and not an entry of its current version); it returns how many there were.
+func mStripGhosts(snap *vBessSnap, sessions []*mSession, ghosts []mGhost) int {
+	if len(ghosts) == 0 {
+		return 0
+	}
+	cur := map[string]mLivePDR{}
+	for _, l := range mLivePDRs(sessions) {
+		cur[fmt.Sprintf("%x/%d", l.S.UP, l.P.Spec.ID)] = l
+	}
+	n := 0
+	var keep []vBessPDR
+	for i := range snap.PDR {
+		e := &snap.PDR[i]
+		isGhost := false
+		if l, ok := cur[fmt.Sprintf("%x/%d", e.Fseid, e.PdrID)]; !ok || !mEntryIs(e, l.S.UP, l.P, l.Flt) {
+			for gi := range ghosts {
+				g := &ghosts[gi]
+				if mEntryIs(e, g.UP, &g.P, g.Flt) {
+					isGhost = true
+					break
+				}
+			}
+		}
+		if isGhost {
+			n++
+		} else {
+			keep = append(keep, *e)
+		}
+	}
+	snap.PDR = keep
+	return n
+}
+
 // mCheckBess compares the fake BESS state with the image of the live sessions.
 func mCheckBess(snap vBessSnap, sessions []*mSession, n3, n6 uint32, rng *rand.Rand, nsamples *int) []mMismatch {
+	return mCheckBessG(snap, sessions, n3, n6, rng, nsamples, nil)
+}
+
+func mCheckBessG(snap vBessSnap, sessions []*mSession, n3, n6 uint32, rng *rand.Rand, nsamples *int, ghosts []mGhost) []mMismatch {
 	var out []mMismatch
 	bad := func(rule, shape, f string, a ...interface{}) {
 		if len(out) < 12 {
 			out = append(out, mMismatch{rule, shape, fmt.Sprintf(f, a...)})
 		}
+	}
+	if n := mStripGhosts(&snap, sessions, ghosts); n > 0 {
+		bad("C03.R2", "update-pdr-key-change-leaves-old-entry", "%d pdrLookup entr(y/ies) of the previous version of an updated PDR are still installed: an Update PDR that changes the match key (SDF filter, F-TEID) adds the new key but never deletes the old one", n)
 	}
 	liveSE := map[uint64]*mSession{}
 	for _, s := range sessions {
